@@ -1387,9 +1387,13 @@ class Store:
                 deep_merge_check(processes, daughter.get('steps', {}))
             else:
                 # if no processes provided, copy the mother's processes
+                # (and steps, which get_processes() does not include)
                 mother_processes = self.get_path(mother_path).get_processes()
                 processes = copy.deepcopy(mother_processes)
                 processes = processes or {}
+                mother_steps = self.get_path(mother_path).get_steps()
+                deep_merge_check(
+                    processes, copy.deepcopy(mother_steps) or {})
 
             # get the daughter topology
             if 'topology' in daughter:
